@@ -466,14 +466,32 @@ Definition hex_nibble (d : N) : option N :=
   else if inr_ 97 102 d then Some (d - 97 + 10)
   else None.
 
+Definition hex_digit_of (d : N) : M N :=
+  match hex_nibble d with
+  | Some n => ret n
+  | None => failHere InvalidHexDigit
+  end.
+
 Definition parse_ascii_hex_digit : M N :=
   do o <- read_field_octet;
   match o with
-  | Some d => match hex_nibble d with
-              | Some n => ret n
-              | None => failHere InvalidHexDigit
-              end
+  | Some d => hex_digit_of d
   | None => failHere UnexpectedEndOfHexRdata
+  end.
+
+(* first digit of an octet: RFC 3597 § 5 allows the hexadecimal data to be split into several
+   words, so an exhausted word is followed by a skip to the next field of the logical line *)
+Definition parse_leading_ascii_hex_digit : M N :=
+  do position <- getpos;
+  do o <- read_field_octet;
+  match o with
+  | Some d => hex_digit_of d
+  | None =>
+    do f <- skip_to_next_field_or_to_eol;
+    match f with
+    | Field => parse_ascii_hex_digit
+    | Eol => failM position UnexpectedEndOfHexRdata
+    end
   end.
 
 (* `while rdata.len() < len`: n octets still to read; the Vec is built in reverse *)
@@ -481,7 +499,7 @@ Fixpoint hex_loop (n : nat) (acc : bytes) : M bytes :=
   match n with
   | O => ret (rev_fast acc)
   | S n' =>
-    do h <- parse_ascii_hex_digit;
+    do h <- parse_leading_ascii_hex_digit;
     do l <- parse_ascii_hex_digit;
     hex_loop n' ((h * 16 + l) :: acc)            (* (high << 4) | low on nibbles *)
   end.
